@@ -1,6 +1,7 @@
 import Driver.Common
 import FsicModel.Alias
 import FsicModel.AliasClass
+import FsicModel.AliasFail
 /-
 Executable instance of M8 (alias part) for the correspondence check.  Names are strings; a stored series is an
 array of integers (the harness writes distinct integers, so a cell identifies the write that produced it);
@@ -62,6 +63,7 @@ def handleRename (j : Json) : R String := do
 
 inductive Pay where
   | int (i : Int) | list (l : List Int) | pos (i : Nat) | slice (a b : Nat)
+  | bad (code : Nat)   -- 1: a value of the wrong shape; 2: a value NumPy cannot cast; 3: a label that is not in the span
   deriving Repr
 
 def dimErr : Err := .value 1
@@ -77,6 +79,7 @@ def E : ValOps String (Array Int) Pay where
   readAt v ix := match ix with
     | .pos i => match v[i]? with | some x => .ok (.int x) | none => .error numpyErr
     | .slice a b => .ok (.list ((sliceIdx a b).filterMap fun i => v[i]?))
+    | .bad 3 => .error .keyError
     | _ => .error numpyErr
   writeAt v ix p := match ix, p with
     | .pos i, .int c => if i < v.size then .ok (v.set! i c) else .error numpyErr
@@ -84,12 +87,14 @@ def E : ValOps String (Array Int) Pay where
     | .slice a b, .list l =>
       if l.length = (sliceIdx a b).length then .ok (((sliceIdx a b).zip l).foldl (fun acc il => acc.set! il.1 il.2) v)
       else .error numpyErr
+    | .bad 3, _ => .error .keyError
     | _, _ => .error numpyErr
   raw _ _ _ v := v
 
 def parsePay (j : Json) : R Pay :=
   match j with
   | .arr a => do pure (.list (← a.toList.mapM (·.getInt?)))
+  | .obj _ => do pure (.bad (← nat j "bad"))
   | v => do pure (.int (← v.getInt?))
 
 def parseIx (j : Json) : R Pay :=
@@ -97,6 +102,7 @@ def parseIx (j : Json) : R Pay :=
   | .arr a => match a.toList with
     | [x, y] => do pure (.slice (← x.getNat?) (← y.getNat?))
     | _ => throw "slice = [a, b]"
+  | .obj _ => do pure (.bad (← nat j "bad"))
   | v => do pure (.pos (← v.getNat?))
 
 def parseOp (j : Json) : R (Op String Pay) := do
@@ -123,6 +129,7 @@ def payStr : Pay → String
   | .list l => "l:" ++ intsStr l
   | .pos i => "p:" ++ toString i
   | .slice a b => "sl:" ++ toString a ++ ":" ++ toString b
+  | .bad c => "bad:" ++ toString c
 
 def errStr : Err → String
   | .attributeError => "AttributeError"
@@ -168,6 +175,93 @@ def handleHistory (j : Json) : R String := do
         let (s', rs) := run (aliased E a) ⟨strict, vars, []⟩ ops
         pure (joinWith " " (rs.map resStr) ++ "|" ++ storeStr s')
 
+
+/-! histories with failing operations on the whole instance (`FsicModel/AliasFail.lean`) -/
+
+def xerrStr : XErr → String
+  | .attributeError => "AttributeError"
+  | .notImplementedError => "NotImplementedError"
+  | .duplicateNameError => "DuplicateNameError"
+  | .dimensionError => "DimensionError"
+  | .valueError => "ValueError"
+
+def xresStr : XRes String (Array Int) Pay → String
+  | .acc r => resStr r
+  | .ok => "ok"
+  | .labels l => "L:" ++ joinWith "," l
+  | .fail e => xerrStr e
+
+/-- `closest` is `difflib`'s business: the harness passes, with every operation, what `get_closest_match` has to
+    return for the name that operation can be rejected for (`alts`). -/
+def xenv (n : Nat) (container : Bool) (tail alts : List String) : Env String (Array Int) Pay where
+  E := E
+  closest := fun _ _ => alts
+  us := fun x => "_" ++ x
+  newSeries := fun p => match p with
+    | .int c => .ok (Array.replicate n c)
+    | .list l => if l.length = n then .ok l.toArray else .error .dimensionError
+    | .bad 1 => .error .dimensionError
+    | _ => .error .valueError
+  le := strLe
+  internal := fun x => !container && x.startsWith "_"
+  tail := tail
+  prefName := "preferred_names"
+
+def parseXOp (j : Json) : R (XOp String Pay × List String) := do
+  let k ← str j "op"
+  let alts ← match optObj j "alts" with
+    | some a => parseNames a
+    | none => pure []
+  match k with
+  | "eval" => pure (.eval (← parseNames (← obj j "free")), alts)
+  | "addvar" => pure (.addVariable (← str j "n") (← parsePay (← obj j "v")), alts)
+  | "setpref" => pure (.setPref (← parseNames (← obj j "l")), alts)
+  | "export" => pure (.export (← bool j "ua"), alts)
+  | "closest" => pure (.closestMatch (← str j "n"), alts)
+  | _ => pure (.acc (← parseOp j), alts)
+
+/-- What the harness compares after every operation: `names | index | series of the names | attributes | aliases |
+    preferred_names`. -/
+def objStr (o : Obj String (Array Int) Pay) : String :=
+  joinWith "," o.names ++ "|" ++ joinWith "," o.store.index ++ "|" ++
+  joinWith ";" ((o.store.vars.filter fun nv => nv.1 ∈ o.names).map fun nv => nv.1 ++ "=" ++ intsStr nv.2.toList) ++ "|" ++
+  joinWith "," o.store.attrNames ++ "|" ++ pairsStr o.aliases ++ "|" ++ joinWith "," o.pref
+
+/-- kind `alias_xhistory`: `{m, pref, names, tail, attrs, container, strict, n, kwargs, ops}` → per operation
+    `result @ state`, joined by ` ## `, or `ctor:<error>`. -/
+def handleXHistory (j : Json) : R String := do
+  let m ← parsePairs (← obj j "m")
+  let pref ← parseNames (← obj j "pref")
+  let n ← nat j "n"
+  let names ← parseNames (← obj j "names")
+  let tail ← parseNames (← obj j "tail")
+  let attrs ← parseNames (← obj j "attrs")
+  let container ← bool j "container"
+  let strict ← bool j "strict"
+  let kwargs ← (← arr j "kwargs").toList.mapM fun kv => do
+    match (← kv.getArr?).toList with
+    | [k, v] => pure (← k.getStr?, ← parsePay v)
+    | _ => throw "kwarg expected"
+  let ops ← (← arr j "ops").toList.mapM parseXOp
+  match instanceAliases m with
+  | .valueError => pure "ctor:ValueError"
+  | .returned a =>
+    if !prefCheck a pref then pure "ctor:ValueError" else
+    match ctorAliased a strict names (Pay.int 0) kwargs with
+    | .error e => pure ("ctor:" ++ errStr e)
+    | .ok init =>
+      let zero : Array Int := Array.replicate n 0
+      let vars : Except Err (List (String × Array Int)) := init.mapM fun nv => do
+        pure (nv.1, ← E.assign zero nv.2)
+      match vars with
+      | .error e => pure ("ctor:" ++ errStr e)
+      | .ok vars =>
+        let o0 : Obj String (Array Int) Pay :=
+          ⟨⟨strict, tail.map (fun t => (t, zero)) ++ vars, attrs.map fun x => (x, Pay.int 0)⟩, names, a, pref, false⟩
+        let (_, outs) := ops.foldl (fun (acc : Obj String (Array Int) Pay × List String) oa =>
+          let (o', r) := xstep (xenv n container tail oa.2) acc.1 oa.1
+          (o', acc.2 ++ [xresStr r ++ " @ " ++ objStr o'])) (o0, [])
+        pure (joinWith " ## " (objStr o0 :: outs))
 
 /-! export with options -/
 
@@ -240,5 +334,5 @@ end Drv.Alias
 namespace Drv.Alias
 def handlers : List (String × (Lean.Json → Except String String)) :=
   [("alias_shorten", handleShorten), ("alias_prefcheck", handlePrefCheck), ("alias_rename", handleRename),
-   ("alias_history", handleHistory), ("alias_rename_opts", handleRenameOpts), ("alias_hier", handleHier)]
+   ("alias_history", handleHistory), ("alias_xhistory", handleXHistory), ("alias_rename_opts", handleRenameOpts), ("alias_hier", handleHier)]
 end Drv.Alias
